@@ -174,7 +174,7 @@ func main() {
 		fo.Obligations = n
 		res.Funcs = append(res.Funcs, fo)
 	}
-	if u.Name == "lib" {
+	if u.Name == "lib" || u.Name == "api" {
 		tos, tfo := u.tableObligations(fre, kre)
 		allObls = append(allObls, tos...)
 		if len(tos) > 0 {
